@@ -179,8 +179,11 @@ def _nd_options(opts):
 def dns_name(name):
   out = b""
   if name:
-    for l in name.split("."):
-      lb = l.encode("latin-1")
+    if isinstance(name, (bytes, bytearray)):       # labels given as raw octets (e.g. UTF-8 text of mDNS / DNS-SD names)
+      labels = bytes(name).split(b".")
+    else:
+      labels = [l.encode("latin-1") for l in name.split(".")]
+    for lb in labels:
       assert 0 < len(lb) < 64
       out += bytes([len(lb)]) + lb
   return out + b"\0"
@@ -1325,6 +1328,17 @@ def catalog(n=6):
     ("llc-i-raw", [_eth(), {"t": "llc", "dsap": 0x42, "ssap": 0x42, "ctrl": 0x0204}, P]),
     ("snap-ipv4-udp", [_eth(), {"t": "llc", "dsap": 0xaa, "ssap": 0xaa, "ctrl": 3, "snap": {"oui": b"\0\0\0"}}, _ip4(), {"t": "udp"}, P]),
     ("snap-oui-raw", [_eth(), {"t": "llc", "dsap": 0xaa, "ssap": 0xaa, "ctrl": 3, "snap": {"oui": b"\x00\x00\x0c", "type": 0x2000}}, P]),
+    # SNAP SAPs with a two-octet (I- / S-format) control field, plain and VLAN-tagged, OUI zero and non-zero
+    ("snap-i-ipv4-udp", [_eth(), {"t": "llc", "dsap": 0xaa, "ssap": 0xaa, "ctrl": 0x0204, "snap": {"oui": b"\0\0\0"}}, _ip4(), {"t": "udp"}, P]),
+    ("snap-s-arp", [_eth(), {"t": "llc", "dsap": 0xaa, "ssap": 0xab, "ctrl": 0x0101, "snap": {"oui": b"\0\0\0"}},
+                    {"t": "arp", "op": 1, "sha": M1, "spa": A1, "tha": b"\0" * 6, "tpa": A2}, NOPAY]),
+    ("snap-i-oui-raw", [_eth(), {"t": "llc", "dsap": 0xab, "ssap": 0xaa, "ctrl": 0x7e00, "snap": {"oui": b"\x00\x00\x0c", "type": 0x2000}}, P]),
+    ("vlan-snap-i-raw", [_eth(), {"t": "vlan", "pcp": 5, "id": 7}, {"t": "llc", "dsap": 0xaa, "ssap": 0xaa, "ctrl": 0x0002,
+                                                                     "snap": {"oui": b"\0\0\0", "type": 0x88b5}}, P]),
+    ("vlan-snap-s-oui-raw", [_eth(), {"t": "vlan", "pcp": 0, "id": 4095}, {"t": "llc", "dsap": 0xaa, "ssap": 0xaa, "ctrl": 0xff05,
+                                                                          "snap": {"oui": b"\x08\x00\x07", "type": 0x809b}}, P]),
+    ("vlan-snap-ipv4-udp", [_eth(), {"t": "vlan", "pcp": 1, "id": 10}, {"t": "llc", "dsap": 0xaa, "ssap": 0xaa, "ctrl": 3, "snap": {"oui": b"\0\0\0"}}, _ip4(), {"t": "udp"}, P]),
+    ("vlan-llc-s-raw", [_eth(), {"t": "vlan", "pcp": 1, "id": 10}, {"t": "llc", "dsap": 0x42, "ssap": 0x43, "ctrl": 0x0a01}, P]),
     ("ipv4-raw", [_eth(), _ip4(proto=253), P]),
     ("ipv4-opts-raw", [_eth(), _ip4(proto=253, opts=b"\x94\x04\x00\x00"), P]),
     ("ipv4-frag-udp", [_eth(), _ip4(proto=17, flags=1, frag=185), P]),
@@ -1396,6 +1410,37 @@ def catalog(n=6):
   return out
 
 
+# "unusual but well-formed text": valid 2-, 3- and 4-byte UTF-8 sequences (and the edges of each length class)
+UTF8_TEXTS = [
+  "Zo\u00eb\u2019s Mac \u65e5\u672c \U0001f600".encode("utf-8"),     # 2-, 3-, 3-, 4-byte sequences mixed with ASCII
+  "caf\u00e9".encode("utf-8"), "\u2019".encode("utf-8"), "\u4e2d\u6587".encode("utf-8"), "\U0001f600\U0010ffff".encode("utf-8"),
+  "\u0080\u07ff".encode("utf-8"), "\u0800\uffff".encode("utf-8"), "\U00010000".encode("utf-8"),
+]
+
+
+def text_catalog(text=None):
+  """[(name, spec)]: frames whose text-bearing fields hold `text` (bytes).  Only for the parser corpus (C15): the names are
+  raw octets, which POX's builder API does not take."""
+  t = UTF8_TEXTS[0] if text is None else bytes(text)
+  lab = t[:63]
+  eap_dst = bytes.fromhex("0180c2000003")
+  return [
+    ("text-dns-q", [_eth(), _ip4(), {"t": "udp"}, {"t": "dns", "id": 1, "rd": True, "q": [{"name": lab + b".local", "qtype": 255, "qclass": 1}]}]),
+    ("text-mdns-ptr", [_eth(), _ip4(), {"t": "udp", "mdns": True, "sport": 5353}, {"t": "dns", "id": 0, "qr": True, "aa": True, "an": [
+        {"name": b"_http._tcp.local", "qtype": 12, "qclass": 1, "ttl": 120, "rd": {"name": lab + b"._http._tcp.local"}},
+        {"name": lab + b"._http._tcp.local", "qtype": 16, "qclass": 0x8001, "ttl": 120, "rd": {"raw": bytes([min(len(t), 255)]) + t[:255]}},
+        {"name": lab + b".local", "qtype": 5, "qclass": 1, "ttl": 120, "rd": {"name": b"host." + lab + b".example"}}]}]),
+    ("text-lldp", [_eth(dst=bytes.fromhex("0180c200000e")), {"t": "lldp", "tlvs": [
+        {"k": "chassis", "sub": 7, "id": t[:255]}, {"k": "port", "sub": 5, "id": t[:255]}, {"k": "ttl", "v": 120},
+        {"k": "portdesc", "v": t}, {"k": "sysname", "v": t}, {"k": "sysdesc", "v": t}, {"k": "end"}]}]),
+    ("text-dhcp", [_eth(), _ip4(), {"t": "udp"}, {"t": "dhcp", "xid": 1, "chaddr": M1, "sname": t[:64], "file": t[:128], "opts": [
+        {"code": 53, "k": "msgtype", "v": 3}, {"code": 12, "k": "raw", "v": t[:255]}, {"code": 15, "k": "raw", "v": t[:255]},
+        {"code": 56, "k": "raw", "v": t[:255]}, {"code": 81, "k": "raw", "v": b"\0\0\0" + t[:250]}]}]),
+    ("text-eap-identity", [_eth(dst=eap_dst), {"t": "eapol", "ver": 1, "type": 0}, {"t": "eap", "code": 2, "id": 1, "type": 1}, {"t": "raw", "data": t}]),
+    ("text-eap-notification", [_eth(dst=eap_dst), {"t": "eapol", "ver": 2, "type": 0}, {"t": "eap", "code": 1, "id": 2, "type": 2}, {"t": "raw", "data": t}]),
+  ]
+
+
 def has_free_payload(spec):
   return spec[-1]["t"] == "raw" and "len" in spec[-1] and spec[-1]["len"] > 0
 
@@ -1423,4 +1468,6 @@ def corpus():
   for name, spec in catalog(0):
     if name in _EMPTY:
       out.append(("%s-0" % name, build(spec)))
+  for name, spec in text_catalog():
+    out.append((name, build(spec)))
   return out
